@@ -59,13 +59,17 @@ def gen_cases(tier, seed):
                                           samples=[], models=models, form=form))
     motions = (0, 1, 2, 3)
     # PVs: velocity fixes share their time stamps with position fixes; P0V: the first position fix is AT the initial time
-    mixes = ('P', 'PV', 'PVB', 'PVs', 'P0V')
+    # PVc: position and velocity fixes at two DIFFERENT stamps inside one IMU interval (0.3 and 0.7 of it), i.e. between
+    # the IMU samples: two feedback corrections before the next increment is integrated
+    mixes = ('P', 'PV', 'PVB', 'PVs', 'P0V', 'PVc')
     classes = ('bias', 'sm', 'subset')      # subset: bias states on axes that are not a prefix of x, y, z
     steps = (0.5, 1.0)
     # 0.03 s: a covariance step below the 0.05 s IMU interval (one increment per step), on the fixed scenarios only
-    for mo, mix, cl, st, wa in itertools.product(motions, mixes, classes, steps, (True, False)):
-        k = motions.index(mo) + mixes.index(mix) + classes.index(cl) + steps.index(st) + int(wa)
-        always = (mo == 0 and st == 0.5 and ((mix in ('PVs', 'P0V') and cl == 'bias') or (mix == 'PVB' and cl == 'sm'))) or \
+    for mo, mix, cl, st, wa in itertools.product(motions + (4,), mixes, classes, steps, (True, False)):
+        if (mix == 'PVc') != (mo == 4):
+            continue            # between-sample fixes only on the unaccelerated motion (and only they there)
+        k = mo + mixes.index(mix) + classes.index(cl) + steps.index(st) + int(wa)
+        always = (mo == 4 and st == 0.5 and wa and cl != 'subset') or (mo == 0 and st == 0.5 and ((mix in ('PVs', 'P0V') and cl == 'bias') or (mix == 'PVB' and cl == 'sm'))) or \
             (mix == 'PV' and st == 1.0 and ((mo == 3 and cl == 'bias') or (mo == 1 and cl == 'subset')))
         if tier == 'quick' and (k + seed) % 4 != 0 and not always:
             continue
@@ -127,7 +131,10 @@ def reference(motion, wa):
             dict(lla=[-33.0, 151.0, 3000.0], vm=[60.0, 40.0, vz[0]], va=[10.0, 6.0, vz[1]], period=9.0),
             dict(lla=[70.0, -170.0, 0.0], vm=[-20.0, 25.0, 0.0], va=[4.0, 6.0, vz[1]], period=6.0),
             # southbound weave: the heading crosses +-180 deg back and forth inside covariance steps
-            dict(lla=[-20.0, 179.99, 50.0], vm=[-20.0, 0.5, vz[0]], va=[3.0, 6.0, vz[1]], period=4.0)][motion]
+            dict(lla=[-20.0, 179.99, 50.0], vm=[-20.0, 0.5, vz[0]], va=[3.0, 6.0, vz[1]], period=4.0),
+            # unaccelerated straight flight: linear interpolation between rows (feedforward) and prediction by a part
+            # of the increment (feedback) are both exact, so fixes BETWEEN the IMU samples can be compared (mix PVc)
+            dict(lla=[40.0, 30.0, 2000.0], vm=[35.0, -20.0, vz[0]], va=[0.0, 0.0, 0.0], period=7.0)][motion]
     traj_true, imu_true = sim.generate_sine_velocity_motion(dt, 20.0, spec['lla'], spec['vm'], spec['va'],
                                                             velocity_change_period=spec['period'])
     inc0 = strapdown.compute_increments_from_imu(imu_true, 'rate')
@@ -162,8 +169,14 @@ def run_pair(case, s):
         am = isn.EstimationModel(bias_sd=0.1 * s, noise=1e-3 * s)
     nz = rng.randn(len(ref), 3)
     meas = []
+    clustered = 'c' in case['mix']
+    if clustered:
+        base_t = np.asarray(ref.index, dtype=float)[20::40]
+        base_t = base_t[base_t + 0.05 <= float(ref.index[-1])]
     if 'P' in case['mix']:
         pm = ref.iloc[0::40] if '0' in case['mix'] else ref.iloc[20::40]
+        if clustered:
+            pm = transform.resample_state(ref, base_t + 0.3 * 0.05)
         arm = np.array([2.0, -1.0, 0.5]) if case['motion'] == 1 else None      # antenna lever arm on one motion
         src = transform.translate_trajectory(pm, arm) if arm is not None else pm
         meas.append(measurements.Position(pd.DataFrame(
@@ -172,6 +185,8 @@ def run_pair(case, s):
             columns=['lat', 'lon', 'alt']), 1.0 * s, imu_to_antenna_b=arm))
     if 'V' in case['mix']:
         vm = ref.iloc[20::40] if 's' in case['mix'] else ref.iloc[30::40]
+        if clustered:
+            vm = transform.resample_state(ref, base_t + 0.7 * 0.05)
         meas.append(measurements.NedVelocity(pd.DataFrame(
             vm[['VN', 'VE', 'VD']].values + s * 0.1 * nz[30::40][:len(vm)], index=vm.index, columns=['VN', 'VE', 'VD']), 0.1 * s))
     if 'B' in case['mix']:
